@@ -88,6 +88,20 @@ func errCarriers(fn *ssa.Function, seed func(v ssa.Value) bool) map[ssa.Value]bo
 					if has(x.X) {
 						mark(x)
 					}
+				case *ssa.MakeClosure:
+					// a captured variable is one cell seen from both sides
+					if cf, ok := x.Fn.(*ssa.Function); ok {
+						for i, b := range x.Bindings {
+							if i < len(cf.FreeVars) {
+								if has(cf.FreeVars[i]) {
+									mark(b)
+								}
+								if has(b) {
+									mark(cf.FreeVars[i])
+								}
+							}
+						}
+					}
 				case *ssa.Call:
 					ck := CalleeKey(x)
 					switch ck {
